@@ -537,15 +537,16 @@ def chain_of(root, p):
     return res
 
 
-def gen_queries(rng, aprov, facts, per_node, count):
+def gen_queries(rng, aprov, facts, per_node, count, order="pre", is_old=None):
     kt_code = dict(facts["members"])
     kt_of_cls = {c: kt_code[facts["table"][c]["key_type"]] for c in facts["concrete"]}
     rtypes = facts["rtypes"]
-    queries = []
+    blocks = []          # (node, its queries): the order of the blocks is part of the generated case
     for si, s in enumerate(aprov):
         for ri, root in enumerate(s):
             for p, n, par in rt.walk(root):
-                queries.append(("from", si, ri, p, "from"))
+                queries = [("from", si, ri, p, "from")]
+                blocks.append((n, par, queries))
                 chain = chain_of(root, p)
                 keys = []
                 for j, (m, mp) in enumerate(chain):
@@ -632,7 +633,23 @@ def gen_queries(rng, aprov, facts, per_node, count):
                         kind = "same"
                     queries.append(("get", si, ri, p[:a], ids, kind))
                     count(f"path-perturbation={kind}")
-    return queries
+    # ---- order of the targets within the round
+    if order == "reversed":
+        blocks.reverse()
+    elif order == "random":
+        rng.shuffle(blocks)
+    elif order == "old-first" and is_old is not None:
+        # the elements that existed before the mutation (last ones first), then the new ones
+        blocks = [b for b in reversed(blocks) if is_old(b[0])] + [b for b in blocks if not is_old(b[0])]
+    elif order == "single":
+        # one target only, preferably a list item that existed before the mutation
+        pref = [b for b in blocks if b[1] is not None and b[1]["c"] == "SubmodelElementList"
+                and (is_old is None or is_old(b[0]))]
+        blocks = [rng.choice(pref or blocks)] if blocks else []
+    elif order == "from-only-reversed":
+        blocks = [(n, par, q[:1]) for n, par, q in reversed(blocks)]
+    count(f"query-order={order}")
+    return [q for _, _, qs in blocks for q in qs]
 
 
 def coq_query(q):
@@ -811,14 +828,19 @@ def run(chk):
         nstores = rng.choice([1, 1, 2, 3])
         d = rng.randint(2, depth)
         aprov = rt.gen_provider(rng, d, nstores, stats)
-        rounds = [{"mut": [], "queries": gen_queries(rng, aprov, facts, per_node, chk.count)}]
+        rounds = [{"mut": [], "queries": gen_queries(rng, aprov, facts, per_node, chk.count,
+                                                     rng.choice(["pre", "pre", "reversed", "random"]))}]
         if rng.random() < 0.6:
             # history: mutate the live lists / containers / stores / provider arrangement between rounds; the
             # queries of a later round are generated for (and the model evaluated on) the provider as it is then
             cur = copy.deepcopy(aprov)
-            for _ in range(rng.randint(1, 2)):
+            for _ in range(rng.randint(1, 3)):
+                old = {id(n) for st in cur for t in st for _, n, _ in rt.walk(t)}
                 muts = gen_mutations(rng, cur, d, chk.count)
-                rounds.append({"mut": muts, "queries": gen_queries(rng, cur, facts, max(1, per_node - 1), chk.count)})
+                order = rng.choice(["pre", "reversed", "random", "random", "old-first", "old-first", "single", "single",
+                                    "from-only-reversed"])
+                rounds.append({"mut": muts, "queries": gen_queries(rng, cur, facts, max(1, per_node - 1), chk.count,
+                                                                   order, lambda n: id(n) in old)})
         cases.append((aprov, rounds))
     for ci, (aprov, rounds) in enumerate(cases):
         out, fails = run_history(aprov, rounds, facts)
@@ -917,7 +939,9 @@ def finish(chk):
                            "id_short paths from a random ancestor; in ~60% of the cases 1-2 further rounds after 1-3 mutations "
                            "of the live objects (list insert/append/extend/pop/remove/del slice/setitem/set slice/reorder, "
                            "add_referable/remove_referable, store add/discard/move, multiplexer providers removed/reversed/"
-                           "moved), every referable queried again and the model evaluated on the provider as it is then; "
+                           "moved), the referables queried again and the model evaluated on the provider as it is then; the ORDER of "
+                           "the targets within a round is part of the case (pre-order, reversed, random permutation, elements "
+                           "that existed before the mutation first, a single target, from_referable only in reverse); "
                            "non-trivial = provider with >= 3 nodes; distinct by (provider, queries)")
 
 
